@@ -29,7 +29,7 @@ PROFILES = {
             (3, _p(world="mem", kinds=MF, p_payload=0.8, p_rejects=0.5, p_noise=0.8, p_extra=0.5)), ],
     "C19": [(6, _p(world="mem", kinds=["moasha"], p_fault_free=0.7, p_ties=0.3, fault_kinds=["crash"])), ],
     "C14": [(6, _p(world="mem", kinds=["hb_stopping_bo", "hb_promotion_bo", "hb_promotion_bo", "hb_hypertune", "hb_dyhpo", "sync_hb_bo"],
-                   p_fault_free=0.5, fault_kinds=["crash"], p_no_ckpt_script=0.4, max_trials=12, p_nodelay_false=0.05)), ],
+                   p_fault_free=0.5, fault_kinds=["crash"], p_no_ckpt_script=0.4, max_trials=12, p_nodelay_false=0.05, p_early_finish=0.3)), ],
     "C20": [(6, _p(world="mem", kinds=["hb_promotion", "hb_pasha", "hb_cost_promotion", "hb_rush_promotion", "sync_hb", "sync_hb_custom",
                                        "dehb", "pbt", "pbt"], p_delete_ckpt=0.8, p_fault_free=0.6, fault_kinds=["crash"],
                    p_no_ckpt_script=0.1, p_nodelay_false=0.05, p_nan_metric_sync=0.4)),
